@@ -44,6 +44,9 @@ type Rule struct {
 	// ActExtra: statements placed in the action after verifReduce (C10: action bodies
 	// with quotes, strings and nested blocks)
 	ActExtra string
+	// Raw, when set, is the complete action text (no verifReduce call: the reduction does not
+	// appear in the log; only harnesses that compare variants with each other use such grammars)
+	Raw string
 }
 
 type Spec struct {
@@ -183,6 +186,9 @@ func (s *Spec) Finish() *Spec {
 // Action renders the semantic action of rule k (1-based, file order) for Go or TS.
 func (s *Spec) Action(k int, ts bool) string {
 	r := s.Rules[k-1]
+	if r.Raw != "" {
+		return r.Raw
+	}
 	var sb strings.Builder
 	if s.SameActions {
 		sb.WriteString("{ verifReduce(reduceIndex)")
@@ -894,6 +900,27 @@ func Fixed() []*Spec {
 		Toks:  []Tok{named("NUM", 440), lit('é'), lit('è')},
 		Rules: rules("S: S 'é' NUM | S 'è' NUM | NUM"),
 		NTTag: allVal("S")})
+	// an action that is nothing but a copy between differently tagged symbols (it cannot log
+	// itself: the grammar is used where variants are compared with each other)
+	{
+		sp := &Spec{Name: "copy_actions", Tags: []string{"lalr1", "no-log"},
+			Toks:  []Tok{{Name: "NUM", Num: 450, Tag: "alt"}, lit('+'), lit('('), lit(')')},
+			Rules: rules("S: S '+' T | T", "T: NUM | '(' S ')'"),
+			NTTag: allVal("S", "T")}
+		sp.Rules[2].Raw = "{ $$ = $1 }"
+		sp.Rules[3].Raw = "{ $$ = $2 }"
+		add(sp)
+	}
+	// a statement language with 71 states and 32 symbols: the packed vector passes 256 slots
+	add(&Spec{Name: "lang71", Tags: []string{"conflict-resolved", "big"},
+		Toks: []Tok{lit('i'), lit('n'), lit('f'), lit('w'), lit('e'), lit('r'), lit('v'), lit('p'),
+			{Char: '+', Decl: "prec"}, {Char: '-', Decl: "prec"}, {Char: '*', Decl: "prec"}, {Char: '/', Decl: "prec"}, lit('('), lit(')'), lit('{'), lit('}'), lit(';'),
+			{Char: '=', Decl: "prec"}, {Char: '<', Decl: "prec"}, lit(','), {Char: '!', Decl: "prec"}, {Char: '&', Decl: "prec"}, {Char: '^', Decl: "prec"}, lit('['), lit(']')},
+		Prec: []PrecLine{{"right", []string{"'='"}}, {"left", []string{"'^'"}}, {"left", []string{"'&'"}}, {"left", []string{"'<'"}}, {"left", []string{"'+'", "'-'"}}, {"left", []string{"'*'", "'/'"}}, {"right", []string{"'!'"}}},
+		Rules: rules("P: SL", "SL: | SL S",
+			"S: 'v' 'i' ';' | 'v' 'i' '=' X ';' | X ';' | 'f' '(' X ')' S | 'f' '(' X ')' S 'e' S | 'w' '(' X ')' S | 'r' X ';' | 'r' ';' | 'p' '(' AL ')' ';' | '{' SL '}' | ';'",
+			"AL: | X | AL ',' X",
+			"X: X '+' X | X '-' X | X '*' X | X '/' X | X '<' X | X '&' X | X '^' X | 'i' '=' X | '!' X | '-' X %prec '!' | '(' X ')' | 'i' '(' AL ')' | 'i' '[' X ']' | 'i' | 'n'")})
 	// names that differ only in case; automatic token numbers
 	add(&Spec{Name: "case_names", Tags: []string{"lalr1"},
 		Toks:  []Tok{named("NUM", 0), named("List", 0), lit(',')},
